@@ -28,6 +28,7 @@ static inline route_t route_cat(route_t a, route_t b)
 {
   route_t r; r.len = a.len + b.len; r.id = ROUTE_CAT(a.id, b.id); r.last = b.len > 0 ? b.last : a.last; return r;
 }
+static inline void route_append_route(route_t *r, route_t tail) { *r = route_cat(*r, tail); }
 static inline void route_append_sink(route_t *r, sink_ref s, int sid)
 {
   r->id = ROUTE_SNOC(r->id, s); r->len = r->len + 1; r->last = sid;
